@@ -926,9 +926,13 @@ func c19EndToEnd(j *Job) {
 	modes := stdModes()
 	// an expiry of the retransmission timer against the acknowledgement that stops it
 	for _, mode := range modes[:2] {
-		j.Explore(fmt.Sprintf("VE/%s", mode.Name), validExpiryScenario(withBase(mode.A, 1191, 0xFFFFFFFC, 4000), withBase(mode.B, 1191, 3, 4000)), Budget{D: 1}, nil)
+		dTimer := 1
+		if j.Thorough() {
+			dTimer = 3
+		}
+		j.Explore(fmt.Sprintf("VE/%s", mode.Name), validExpiryScenario(withBase(mode.A, 1191, 0xFFFFFFFC, 4000), withBase(mode.B, 1191, 3, 4000)), Budget{D: dTimer}, nil)
 		for _, withY := range []bool{false, true} {
-			j.Explore(fmt.Sprintf("SE/%s/y%v", mode.Name, withY), staleExpiryScenario(withBase(mode.A, 1191, 0xFFFFFFFC, 4000), withBase(mode.B, 1191, 3, 4000), withY), Budget{D: 1}, nil)
+			j.Explore(fmt.Sprintf("SE/%s/y%v", mode.Name, withY), staleExpiryScenario(withBase(mode.A, 1191, 0xFFFFFFFC, 4000), withBase(mode.B, 1191, 3, 4000), withY), Budget{D: dTimer}, nil)
 		}
 	}
 	var cases []xferCase
